@@ -375,20 +375,21 @@ func variantAddr(base string, v int) string {
 func restartBody(c *nd.Ctx) nd.Result {
 	recv := c.Choose(2, "role") == 1
 	nRestarts := 1 + c.Choose(2, "restarts")
-	var fromV, toV []int
+	var fromV, toV, nsV []int
 	for i := 0; i < nRestarts; i++ {
 		fromV = append(fromV, c.Choose(3, "from-variant"))
 		toV = append(toV, c.Choose(3, "to-variant"))
+		nsV = append(nsV, c.Choose(3, "content-namespace-variant")) // 0 as before, 1 not declared, 2 unsupported
 	}
 	origin := jid.MustParse("me@example.com/res")
 	location := jid.MustParse("example.com")
-	c.Note("role recv=%v restarts=%d from-variants=%v to-variants=%v", recv, nRestarts, fromV, toV)
-	desc := fmt.Sprintf("recv=%v restarts=%d from-variants=%v to-variants=%v (0 same, 1 different, 2 absent)", recv, nRestarts, fromV, toV)
+	c.Note("role recv=%v restarts=%d from-variants=%v to-variants=%v namespace-variants=%v", recv, nRestarts, fromV, toV, nsV)
+	desc := fmt.Sprintf("recv=%v restarts=%d from-variants=%v to-variants=%v (0 same, 1 different, 2 absent) content-namespace-variants=%v (0 same, 1 not declared, 2 unsupported)", recv, nRestarts, fromV, toV, nsV)
 	res := nd.Result{Outcome: "restart", NonTrivial: desc}
 	feats := []xmpp.StreamFeature{restartFeature(1), restartFeature(2)}
 
-	hdr := func(from, to string) string {
-		h := hdrVariant{name: "stream:stream", streamP: streamNS, xmlns: stanza.NSClient, version: "1.0", id: true, from: from, to: to}
+	hdr := func(from, to string, nsVariant int) string {
+		h := hdrVariant{name: "stream:stream", streamP: streamNS, xmlns: []string{stanza.NSClient, "-", "urn:other"}[nsVariant], version: "1.0", id: true, from: from, to: to}
 		return h.render(false)
 	}
 	baseFrom, baseTo := location.String(), origin.String()
@@ -397,9 +398,11 @@ func restartBody(c *nd.Ctx) nd.Result {
 	}
 	// the first differing header index (1-based restart), 0 if none differs
 	firstDiff := 0
+	nsCause := false // the first bad header is bad only because of its content namespace
 	for i := 0; i < nRestarts; i++ {
-		if fromV[i] == 1 || toV[i] == 1 {
+		if fromV[i] == 1 || toV[i] == 1 || nsV[i] != 0 {
 			firstDiff = i + 1
+			nsCause = fromV[i] != 1 && toV[i] != 1
 			break
 		}
 	}
@@ -411,9 +414,9 @@ func restartBody(c *nd.Ctx) nd.Result {
 		if step > nRestarts {
 			return "", nil
 		}
-		from, to := baseFrom, baseTo
+		from, to, nsVar := baseFrom, baseTo, 0
 		if step > 0 {
-			from, to = variantAddr(baseFrom, fromV[step-1]), variantAddr(baseTo, toV[step-1])
+			from, to, nsVar = variantAddr(baseFrom, fromV[step-1]), variantAddr(baseTo, toV[step-1]), nsV[step-1]
 		}
 		if recv {
 			// the peer (a client) sends its header and, once the receiver
@@ -421,13 +424,13 @@ func restartBody(c *nd.Ctx) nd.Result {
 			if step > 0 && !strings.Contains(w, "features") {
 				return "", nil
 			}
-			out := hdr(from, to)
+			out := hdr(from, to, nsVar)
 			if step < nRestarts {
 				out += fmt.Sprintf(`<r xmlns='urn:restart:%d'/>`, step+1)
 			}
 			return out, nil
 		}
-		out := hdr(from, to)
+		out := hdr(from, to, nsVar)
 		if step < nRestarts {
 			out += fmt.Sprintf(`<stream:features><r xmlns='urn:restart:%d'/></stream:features>`, step+1)
 		} else {
@@ -464,7 +467,11 @@ func restartBody(c *nd.Ctx) nd.Result {
 			limit = firstDiff // receiver: answers only streams 0..firstDiff-1
 		}
 		if established || sent > limit {
-			res.Violation = viol("restart:changed-address-accepted", "%s: header %d differs from the established addresses but err=%v, ready=%v, headers sent by the library=%d (limit %d); events %q", desc, firstDiff, err, established, sent, limit, r.Events)
+			sig := "restart:changed-address-accepted"
+			if nsCause {
+				sig = "restart:header-without-supported-content-namespace-accepted"
+			}
+			res.Violation = viol(sig, "%s: header %d differs from the established addresses but err=%v, ready=%v, headers sent by the library=%d (limit %d); events %q", desc, firstDiff, err, established, sent, limit, r.Events)
 		}
 		res.Outcome = "restart-rejected"
 		return res
@@ -472,7 +479,7 @@ func restartBody(c *nd.Ctx) nd.Result {
 	// all same (or absent on a later header)
 	allSame := true
 	for i := range fromV {
-		if fromV[i] != 0 || toV[i] != 0 {
+		if fromV[i] != 0 || toV[i] != 0 || nsV[i] != 0 {
 			allSame = false
 		}
 	}
@@ -490,7 +497,7 @@ var bindOrigins = []string{"me@example.com", "me@example.com/res", `me@example.c
 
 // replies: how the scripted server answers the bind request with id ID
 var bindReplies = []string{
-	"result-jid-as-requested", "result-jid-other-resource", "result-jid-other-account", "result-empty-bind", "result-no-payload",
+	"result-jid-as-requested", "result-jid-other-resource", "result-jid-other-account", "result-jid-other-account-same-resource", "result-empty-bind", "result-no-payload",
 	"error-with-payload", "error-without-payload", "wrong-id", "type-get", "message-kind", "malformed", "eof", "stream-error", "text",
 }
 
@@ -528,9 +535,17 @@ func bindClientBody(c *nd.Ctx) nd.Result {
 				assigned = origin.Bare().String() + "/other'<r"
 			case "result-jid-other-account":
 				assigned = "someone@else.example/x"
+			case "result-jid-other-account-same-resource":
+				// another bare address, the resourcepart that was asked for
+				rp := origin.Resourcepart()
+				if rp == "" {
+					rp = "srv"
+				}
+				oa, _ := jid.New("someone", "else.example", rp)
+				assigned = oa.String()
 			}
 			switch reply {
-			case "result-jid-as-requested", "result-jid-other-resource", "result-jid-other-account":
+			case "result-jid-as-requested", "result-jid-other-resource", "result-jid-other-account", "result-jid-other-account-same-resource":
 				return fmt.Sprintf(`<iq type='result' id='%s'><bind xmlns='%s'><jid>%s</jid></bind></iq>`, id, bindNS, esc(assigned)), nil
 			case "result-empty-bind":
 				return fmt.Sprintf(`<iq type='result' id='%s'><bind xmlns='%s'/></iq>`, id, bindNS), nil
@@ -603,7 +618,7 @@ func bindClientBody(c *nd.Ctx) nd.Result {
 		return res
 	}
 	switch reply {
-	case "result-jid-as-requested", "result-jid-other-resource", "result-jid-other-account":
+	case "result-jid-as-requested", "result-jid-other-resource", "result-jid-other-account", "result-jid-other-account-same-resource":
 		if !ok {
 			res.Violation = viol("bind-client:valid-reply-rejected", "%s: err=%v", desc, err)
 		} else if s.LocalAddr().String() != jid.MustParse(assigned).String() {
